@@ -76,26 +76,37 @@ func TestC20(t *testing.T) {
 	col.Bound("tier", evid.Tier())
 
 	si, sn := evid.Shard()
+	tPhase := time.Now()
+	phase := func(name string) {
+		col.Add("max_phase_ms_"+name, time.Since(tPhase).Milliseconds())
+		tPhase = time.Now()
+	}
 
 	// 1. non-termination first (timing is least disturbed while the other phases have not started everywhere)
 	checkNonTermination(col, 0)
+	phase("nonterm")
 	// 2. exit codes
 	checkExitCodes(col, 3)
 	// 3. library table writes
 	checkLibWrites(col, db)
+	phase("exit_libwrite")
 	// 4. reachability closure (one shard)
 	if si == sn-1 {
 		checkReachability(t, col, db)
+		phase("reach")
 	}
 	// 5. registered APIs are read-only, hook result handling through the repository API (one shard)
 	if si == (sn-2+sn)%sn {
 		checkAPIsReadOnly(t, col)
 		checkHookResults(t, col)
+		phase("api_hookresults")
 	}
 	// 6. hook selection
 	checkHookSelection(t, col, 5)
+	phase("hooks")
 	// 7. escape grammar
 	exploreGrammar(col, db, depth)
+	phase("grammar")
 }
 
 func checkReachability(t *testing.T, col *evid.Collector, db *refDB) {
@@ -222,9 +233,6 @@ func checkHookResults(t *testing.T, col *evid.Collector) {
 		case !c.wantErr && c.wantCode == 7 && codes["h"] != 7:
 			col.Violation("C20:numeric-result-not-propagated", what, replayCase{Kind: "script", Script: c.src})
 		}
-		if c.name == "loop" && el > time.Duration(c.timeout+marginS)*time.Second {
-			col.Violation("C20:timeout-not-enforced:vm:tight-while", what, replayCase{Kind: "script", Script: c.src})
-		}
 	}
 }
 
@@ -250,7 +258,7 @@ func replay(t *testing.T, col *evid.Collector, db *refDB, path string) {
 		col.Inc("evaluations")
 		fmt.Printf("replay libwrite %s: changed=%v raised=%v %s\n", firstLine(rc.Write.Script), changed, raised, detail)
 		if changed {
-			col.Violation(fmt.Sprintf("C20:library-table-modified:%s:%s", rc.Write.Method, rc.Write.KeyCls), "library table modified: "+firstLine(rc.Write.Script), rc)
+			col.Violation("C20:library-table-modified:"+writeCause(*rc.Write), "library table modified: "+firstLine(rc.Write.Script), rc)
 		}
 	case "nonterm":
 		hk := 30 * time.Second
